@@ -142,6 +142,9 @@ let rec dump_doc b (d : doc) =
 
 let doc_to_string d = let b = Buffer.create 256 in dump_doc b d; Buffer.contents b
 
+let rec nat_of_int n = if n <= 0 then O else S (nat_of_int (n - 1))
+let rec int_of_nat = function O -> 0 | S n -> 1 + int_of_nat n
+
 let site_name = function
   | SMathDelimitedSlice -> "math_delimited_slice" | SChainRemove0 -> "chain_remove0"
   | SCommentUnreachable -> "comment_unreachable" | SFollowLeadingUnwrap -> "follow_leading_unwrap"
@@ -227,6 +230,44 @@ let () =
           | RErr -> "err"
           | RPanic s -> "panic " ^ site_name s
           | RFuel -> "fuel")
+  | "sym" ->
+      (* K U1 DOC1 RAWHEX1 ... UK DOCK RAWHEXK  (units must include 2 and 3)
+         -> sym=0|1 align=0|1 inst=<bits> wide=<bits> lines=<L:a:b | X, comma separated> *)
+      each_line (fun line ->
+          let t = toks_of line in
+          let k = int_of_string (next t) in
+          let items = List.init k (fun _ ->
+              let u = int_of_string (next t) in
+              let d = parse_doc t in
+              let raw = next t in
+              (u, d, raw)) in
+          let find u = List.find_opt (fun (u', _, _) -> u' = u) items in
+          match find 2, find 3 with
+          | Some (_, d2, _), Some (_, d3, _) ->
+              (match sym_of d2 d3 with
+               | None -> "sym=0"
+               | Some sd ->
+                   let ok = true in
+                   let instb = String.concat "" (List.map (fun (u, d, _) ->
+                       if doc_eqb (inst (n_of_int u) sd) d then "1" else "0") items) in
+                   let wideb = String.concat "" (List.map (fun (_, d, raw) ->
+                       match render_wide d with
+                       | Some out -> if hex_of_str out = raw then "1" else "0"
+                       | None -> "0") items) in
+                   let lines =
+                     match render_sym_events sd with
+                     | None -> "fuel"
+                     | Some es ->
+                         let b = Buffer.create 256 in
+                         let first = ref true in
+                         let add x = (if not !first then Buffer.add_char b ','); first := false; Buffer.add_string b x in
+                         List.iter (fun e ->
+                             match e with
+                             | SENewline (a, c) -> add (Printf.sprintf "L:%d:%d" (int_of_n a) (int_of_n c))
+                             | SEText s -> List.iter (fun ch -> if int_of_n ch = 10 then add "X") s) es;
+                         Buffer.contents b in
+                   Printf.sprintf "sym=1 align=%d inst=%s wide=%s lines=%s" (if ok then 1 else 0) instb wideb lines)
+          | _, _ -> "sym=0")
   | "cli" ->
       each_line (fun line ->
           let t = toks_of line in
